@@ -172,6 +172,24 @@ def write_replay(prop, seed, run, case, outcome_json, note=None):
     return path
 
 
+def verify_replay(prop, path):
+    """Re-execute a replay file in a fresh interpreter; True if it reproduces, False if not, None if unknown."""
+    import subprocess
+
+    if os.environ.get("VERIF_NO_REPLAY_VERIFY"):
+        return None
+    cmd = [os.path.join(env.VERIF_ROOT, "bin", "check"), prop, "--replay", path]
+    try:
+        p = subprocess.run(cmd, capture_output=True, text=True, timeout=3600, cwd=env.VERIF_ROOT)
+    except Exception:  # noqa: BLE001
+        return None
+    if p.returncode == 1 and "VIOLATION property=" in p.stdout:
+        return True
+    if p.returncode == 0:
+        return False
+    return None
+
+
 def replay(check, path):
     """Re-execute a replay file; exit 1 with the VIOLATION line if it reproduces."""
     with open(path) as f:
@@ -319,11 +337,21 @@ def run(check_factory, prop, tier, runs, nworkers=None, wall_cap=None, hang_cap=
                 except Exception:  # noqa: BLE001
                     note = "minimiser failed: " + traceback.format_exc(limit=2)
             path = write_replay(prop, seed, res["run"], case, res, note)
+            # a reported violation must replay in a fresh interpreter; if it does not, a source of
+            # nondeterminism escaped the simulator and nothing about this run can be believed
+            reproduced = verify_replay(prop, path)
+            if reproduced is False:
+                errors.append(
+                    "violation of run %d did not reproduce from its replay file %s: a seam was missed (harness error)"
+                    % (res["run"], path)
+                )
+                continue
             replay_paths.append(path)
             for v in unknown[:3]:
                 print("  violation:", json.dumps(v, default=rng._default)[:800])
             print("VIOLATION property=%s replay=%s" % (prop, path), flush=True)
-        exit_code = 1
+        if replay_paths:
+            exit_code = 1
     for kid, hit in sorted(known_hits.items()):
         print(
             "KNOWN-FINDING: property=%s %s (%s; seen %d times, e.g. run %d)"
